@@ -473,6 +473,20 @@ def check_d5(ctx, prog, thorough=False):
                         problems.append(f"{nm} is {m1}.{a1} in the package spelling but {m2}.{a2} in the fallback")
                     elif not _name_exists(prog, prog.modules[m1], a1):
                         problems.append(f"name {a1} does not exist in module {m1}")
+            # order: the package (relative / `quatica.`-qualified) spelling must be tried first.  In package mode the flat
+            # spelling is importable too (the sub-package modules extend sys.path) and would load a SECOND copy of the module,
+            # so classes bound flat-first fail isinstance checks against objects built through the package.
+            def _is_pkg_spelling(stmts):
+                for st_ in stmts:
+                    if isinstance(st_, ast.ImportFrom):
+                        return st_.level > 0 or (st_.module or "").split(".")[0] == "quatica"
+                    if isinstance(st_, ast.Import):
+                        return any(al.name.split(".")[0] == "quatica" for al in st_.names)
+                return None
+            first = _is_pkg_spelling(t.body)
+            others = [_is_pkg_spelling(h.body) for h in t.handlers]
+            if first is False and any(o is True for o in others):
+                problems.append("flat spelling is tried before the package spelling (a second copy of the module is loaded in package mode)")
             inst = f"{where}: try/except import pair binds {{{', '.join(sorted(body))}}} identically"
             if not problems:
                 ctx.ob(R5, inst, True, where=where)
